@@ -98,14 +98,21 @@ def _detect_compressor(fileobj):
     """
     # Read the magic number in the first bytes of the file.
     max_prefix_len = _get_prefixes_max_len()
+    first_bytes = b""
     if hasattr(fileobj, "peek"):
         # Peek allows to read those bytes without moving the cursor in the
         # file which.
         first_bytes = fileobj.peek(max_prefix_len)
-    else:
-        # Fallback to seek if the fileobject is not peekable.
+    if len(first_bytes) < max_prefix_len and (
+        not hasattr(fileobj, "peek") or fileobj.seekable()
+    ):
+        # Fallback to seek if the fileobject is not peekable, or if peek
+        # returned fewer bytes than the longest magic number (it never reads
+        # past the end of a partially consumed buffer). The object does not
+        # necessarily start at the beginning of the file.
+        position = fileobj.tell()
         first_bytes = fileobj.read(max_prefix_len)
-        fileobj.seek(0)
+        fileobj.seek(position)
 
     if first_bytes.startswith(_ZFILE_PREFIX):
         return "compat"
